@@ -286,12 +286,12 @@ def values_rule(ctx, p):
     spec = [
         ("autoarray.structures.arrays.uniform_2d:AbstractArray2D", "hdu_for_output", f"{A2}:hdu_for_output_from", {"array_2d": "self.native", "header_dict": "self.pixel_scale_header"}),
         ("autoarray.structures.arrays.uniform_2d:AbstractArray2D", "output_to_fits", f"{A2}:numpy_array_2d_to_fits", {"array_2d": "self.native", "file_path": "file_path", "overwrite": "overwrite", "header_dict": "self.pixel_scale_header"}),
-        ("autoarray.mask.mask_2d:Mask2D", "hdu_for_output", f"{A2}:hdu_for_output_from", {"array_2d": "self.astype('float')", "header_dict": "self.pixel_scale_header"}),
-        ("autoarray.mask.mask_2d:Mask2D", "output_to_fits", f"{A2}:numpy_array_2d_to_fits", {"array_2d": "self.astype('float')", "file_path": "file_path", "overwrite": "overwrite", "header_dict": "self.pixel_scale_header"}),
+        ("autoarray.mask.mask_2d:Mask2D", "hdu_for_output", f"{A2}:hdu_for_output_from", {"array_2d": "self.astype(dtype='float')", "header_dict": "self.pixel_scale_header"}),
+        ("autoarray.mask.mask_2d:Mask2D", "output_to_fits", f"{A2}:numpy_array_2d_to_fits", {"array_2d": "self.astype(dtype='float')", "file_path": "file_path", "overwrite": "overwrite", "header_dict": "self.pixel_scale_header"}),
         ("autoarray.structures.arrays.uniform_1d:Array1D", "hdu_for_output", f"{A1}:hdu_for_output_from", {"array_1d": "self.native", "header_dict": "self.pixel_scale_header"}),
         ("autoarray.structures.arrays.uniform_1d:Array1D", "output_to_fits", f"{A1}:numpy_array_1d_to_fits", {"array_1d": "self.native", "file_path": "file_path", "overwrite": "overwrite", "header_dict": "self.pixel_scale_header"}),
-        ("autoarray.mask.mask_1d:Mask1D", "hdu_for_output", f"{A1}:hdu_for_output_from", {"array_1d": "self.astype('float')", "header_dict": "self.pixel_scale_header"}),
-        ("autoarray.mask.mask_1d:Mask1D", "output_to_fits", f"{A1}:numpy_array_1d_to_fits", {"array_1d": "self.astype('float')", "file_path": "file_path", "overwrite": "overwrite", "header_dict": "self.pixel_scale_header"}),
+        ("autoarray.mask.mask_1d:Mask1D", "hdu_for_output", f"{A1}:hdu_for_output_from", {"array_1d": "self.astype(dtype='float')", "header_dict": "self.pixel_scale_header"}),
+        ("autoarray.mask.mask_1d:Mask1D", "output_to_fits", f"{A1}:numpy_array_1d_to_fits", {"array_1d": "self.astype(dtype='float')", "file_path": "file_path", "overwrite": "overwrite", "header_dict": "self.pixel_scale_header"}),
     ]
     for ck, meth, util, want in spec:
         m = p.cls(ck).lookup(meth)
